@@ -5,6 +5,7 @@ import (
 	"encoding/json"
 	"errors"
 	"fmt"
+	"io"
 	"strings"
 	"time"
 
@@ -25,6 +26,9 @@ type StageSc struct {
 	Wrap    bool   `json:"wrap,omitempty"`    // hands a wrapped context on (marker value)
 	Ret     string `json:"ret,omitempty"`     // "" last result | first | fab (fabricated result) | err ((nil, err))
 	Yield   bool   `json:"yield,omitempty"`
+	// Stock: the stage is one of the library's own middlewares (transparent for the model):
+	// timeout | timeout0 | correlation | debug
+	Stock string `json:"stock,omitempty"`
 }
 
 type C19Sc struct {
@@ -45,7 +49,29 @@ func genC19(g *simrt.Tape, tier string) any {
 	for i := 0; i < n; i++ {
 		sc.Stages = append(sc.Stages, genStage(g))
 	}
+	// the library's own middlewares, mixed into the chain
+	if sc.Driver != "server-item" {
+		for k, m := 0, g.Draw(3); k < m; k++ {
+			st := StageSc{Stock: []string{"timeout", "timeout", "correlation", "debug", "timeout0"}[g.Draw(5)]}
+			if sc.Driver == "server-msg" {
+				st.Stock = "debug"
+			}
+			pos := g.Draw(len(sc.Stages) + 1)
+			sc.Stages = append(sc.Stages[:pos], append([]StageSc{st}, sc.Stages[pos:]...)...)
+		}
+	}
 	return sc
+}
+
+// programStages returns the generated (non-stock) stages; their position in this list is their label.
+func programStages(all []StageSc) []StageSc {
+	var out []StageSc
+	for _, st := range all {
+		if st.Stock == "" {
+			out = append(out, st)
+		}
+	}
+	return out
 }
 
 func decodeC19(raw json.RawMessage) (any, error) {
@@ -222,7 +248,7 @@ func fabResponse(i int, ver kmip.ProtocolVersion) *kmip.ResponseMessage {
 
 // msgStage builds stage i as a message-level middleware (shared shape of client and server chains).
 func (cr *chainRun) msgStage(i int) func(next func(context.Context, *kmip.RequestMessage) (*kmip.ResponseMessage, error), ctx context.Context, msg *kmip.RequestMessage) (*kmip.ResponseMessage, error) {
-	st := cr.sc.Stages[i]
+	st := programStages(cr.sc.Stages)[i]
 	return func(next func(context.Context, *kmip.RequestMessage) (*kmip.ResponseMessage, error), ctx context.Context, msg *kmip.RequestMessage) (*kmip.ResponseMessage, error) {
 		req, mm := markerOfToken(reqTokenOf(msg))
 		cm := ctxMarkOf(ctx)
@@ -263,7 +289,7 @@ func (cr *chainRun) msgStage(i int) func(next func(context.Context, *kmip.Reques
 }
 
 func (cr *chainRun) itemStage(i int) kmipserver.BatchItemMiddleware {
-	st := cr.sc.Stages[i]
+	st := programStages(cr.sc.Stages)[i]
 	return func(next kmipserver.BatchItemNext, ctx context.Context, bi *kmip.RequestBatchItem) (*kmip.ResponseBatchItem, error) {
 		tok := "?"
 		if p, ok := bi.RequestPayload.(*payloads.ActivateRequestPayload); ok {
@@ -324,14 +350,20 @@ func execC19(x *X, scAny any) {
 
 	switch sc.Driver {
 	case "server-msg":
-		for i := range sc.Stages {
-			st := cr.msgStage(i)
+		label := 0
+		for _, stg := range sc.Stages {
+			if stg.Stock != "" {
+				w.exec.Use(kmipserver.DebugMiddleware(io.Discard, nil))
+				continue
+			}
+			st := cr.msgStage(label)
+			label++
 			w.exec.Use(func(next kmipserver.Next, ctx context.Context, msg *kmip.RequestMessage) (*kmip.ResponseMessage, error) {
 				return st(next, ctx, msg)
 			})
 		}
 	case "server-item":
-		for i := range sc.Stages {
+		for i := range programStages(sc.Stages) {
 			w.exec.BatchItemUse(cr.itemStage(i))
 		}
 	}
@@ -349,8 +381,24 @@ func execC19(x *X, scAny any) {
 	if sc.Driver == "client" {
 		s.Spawn("dial", func() {
 			var mws []kmipclient.Middleware
-			for i := range sc.Stages {
-				st := cr.msgStage(i)
+			label := 0
+			for _, stg := range sc.Stages {
+				switch stg.Stock {
+				case "timeout":
+					mws = append(mws, kmipclient.TimeoutMiddleware(time.Minute))
+					continue
+				case "timeout0":
+					mws = append(mws, kmipclient.TimeoutMiddleware(0))
+					continue
+				case "correlation":
+					mws = append(mws, kmipclient.CorrelationValueMiddleware(func() string { return "cv" }))
+					continue
+				case "debug":
+					mws = append(mws, kmipclient.DebugMiddleware(io.Discard, nil))
+					continue
+				}
+				st := cr.msgStage(label)
+				label++
 				mws = append(mws, func(next kmipclient.Next, ctx context.Context, msg *kmip.RequestMessage) (*kmip.ResponseMessage, error) {
 					return st(next, ctx, msg)
 				})
@@ -422,7 +470,7 @@ func execC19(x *X, scAny any) {
 	}
 	for j := 0; j < sc.Requests; j++ {
 		name := reqName(j)
-		m := &chainModel{stages: sc.Stages}
+		m := &chainModel{stages: programStages(sc.Stages)}
 		wantRes, wantErr := m.run(0, "", "")
 		want := m.trace
 		got := cr.traces[name]
@@ -489,6 +537,10 @@ func traceDiffClass(got, want []string) string {
 func stagesDesc(st []StageSc) string {
 	var parts []string
 	for _, s := range st {
+		if s.Stock != "" {
+			parts = append(parts, "<"+s.Stock+">")
+			continue
+		}
 		p := fmt.Sprintf("x%d", s.Calls)
 		if s.Replace {
 			p += "R"
